@@ -94,6 +94,22 @@ impl ResourceId {
     }
 }
 
+#[cfg(feature = "verif-hooks")]
+impl ResourceId {
+    /// Verification hook: the private constructor, unchanged.
+    pub fn verif_new(adapter_id: u8, resource_type: ResourceType, base_value: usize) -> Self {
+        Self::new(adapter_id, resource_type, base_value)
+    }
+}
+
+#[cfg(feature = "verif-hooks")]
+impl ResourceIdGenerator {
+    /// Verification hook: a generator whose counter starts at `last`.
+    pub fn verif_with_last(adapter_id: u8, resource_type: ResourceType, last: usize) -> Self {
+        Self { last: AtomicUsize::new(last), adapter_id, resource_type }
+    }
+}
+
 impl From<usize> for ResourceId {
     fn from(raw: usize) -> Self {
         Self { id: raw }
